@@ -270,7 +270,9 @@ def generate(tier, seed):
     # --- few cells, huge and scattered vertex numbers (points that belong to no cell fill the gaps): index arithmetic
     #     on vertex ids (keys, offsets, dtypes) must not depend on their magnitude
     big = [5, 32773, 65541, 98309, 100000, 131071, 70001, 46341, 65536]
-    for kind_, (p_, t_) in (('tri', U.tri_lattice(2, 1, (0, 1))), ('quad', U.quad_grid(2, 1)), ('tet', U.tet_cubes(1, 5))):
+    for kind_, (p_, t_) in (('tri', U.tri_lattice(2, 1, (0, 1))), ('quad', U.quad_grid(2, 1)), ('tet', U.tet_cubes(1, 5)),
+                            ('hex', U.hex_grid(1, 1, 1)), ('line', U.line_points([0, 1, 3, 4])),
+                            ('wedge', U.wedge_extrude(*U.tri_lattice(1, 1, (0,)), nz=1))):
         ids = sorted(big[:p_.shape[1]]) if p_.shape[1] <= len(big) else None
         if ids is None:
             continue
